@@ -214,6 +214,34 @@ def run(ctx):
 
     byte_accounting(ctx, ctx.rule("C03.R7", BYTES_TEXT, "WWF + value shape + DOM"))
 
+    # ---- R8 the rest of a completed object's own transfer is suppressed ----------------------------------------------------------
+    r8 = ctx.rule("C03.R8", "once an object is Completed, the packets of the same transfer that are still to come (FEC repair symbols, duplicates) "
+                            "must not start a second instance of it: Receiver::check_object_state enters every Completed object in objects_completed "
+                            "(the registry push_obj consults) on every path", "PAIR")
+    RCV = "receiver::receiver::Receiver"
+    cs = prog.fn(RCV + "::check_object_state")
+    ctx.analysed(cs.path)
+    cfl = Flow(cs.body)
+    ins = set(s_.bb for s_, ai_, mut_ in calls_on_field(prog, RCV, "objects_completed", funcs=[cs]) if method_name(s_) in ("insert", "entry"))
+    arms = []
+    for blk_ in cs.body.blocks:
+        if blk_.cleanup or blk_.term.k != "switch":
+            continue
+        for k_ in range(len(blk_.term.targets) + 1):
+            if any(a_[0] == "variant" and a_[2] == "Completed" and t_ for (a_, t_) in cfl.edge_facts(("e", blk_.i, k_))):
+                arms.append(blk_.term.targets[k_][1] if k_ < len(blk_.term.targets) else blk_.term.otherwise)
+    if not arms:
+        raise model.AnchorMissing("check_object_state: Completed arm not found")
+    key = "check_object_state: Completed -> objects_completed.insert"
+    rets = cs.body.return_blocks()
+    okp = bool(ins) and all(a_ in ins or cfl.must_pass(a_, rets, lambda n: n[0] == "b" and n[1] in ins)[0] for a_ in arms)
+    if okp:
+        r8.ok(key, "on every path of the Completed arm", loc(cs.sp))
+    else:
+        r8.violation(key, "a Completed object can leave check_object_state without being entered in objects_completed: the remaining packets of its own "
+                          "transfer (repair symbols) re-create it, open a second writer for it and end that one in error - with the filesystem writer "
+                          "the file just completed is truncated and removed", loc(cs.sp))
+
 
 BYTES_TEXT = ("BlockWriter byte accounting: bytes_left starts at the transfer length handed to BlockWriter::new (ObjectReceiver.transfer_length, with "
               "content_length / cenc from the same object), every block is cut to at most bytes_left bytes before it reaches the writer, bytes_left "
